@@ -743,15 +743,15 @@ func c17MulRuns(prog *load.Program, vartime bool) []ctRunSpec {
 
 // mulGModel is the specification of the rounded product used by the GLV split (C04-4 proves it).
 func mulGModel(set *models.Set) {
+	// the multiplicand may arrive as a Scalar or already converted out of the Montgomery domain (four limbs)
+	set.Merge(models.FiatOnAbstract(models.FiatSPkg, sym.Fn))
 	set.Intercepts[Method(models.ScalarType, "mulGFlooredDiv")] = func(ex *absint.Exec, cc *absint.CallCtx) (absint.Val, bool) {
 		recv, _ := cc.St.Resolve(cc.Args[0]).(*absint.Ptr)
-		a, _ := cc.St.Resolve(cc.Args[1]).(*absint.Ptr)
-		b, _ := cc.St.Resolve(cc.Args[2]).(*absint.Ptr)
-		if recv == nil || a == nil || b == nil {
+		if recv == nil || len(cc.Args) != 3 {
 			return nil, false
 		}
-		x, _ := ex.LoadLeaf(cc.St, a).(*sym.Term)
-		y, _ := ex.LoadLeaf(cc.St, b).(*sym.Term)
+		x := models.LoadRingOperand(ex, cc, 1, sym.Fn)
+		y := models.LoadRingOperand(ex, cc, 2, sym.Fn)
 		if x == nil || y == nil {
 			return nil, false
 		}
